@@ -157,13 +157,21 @@ func judgeReports(c battleCase, rec *hx.Rec) string {
 	}
 	if (c.Cfg.M+c.Cfg.Cycles)%2 == 0 {
 		// the battle proper is the second round on this simulator and recorder
-		sim.Reset()
+		// one reset, or (one case in eight) three hundred of them on the same simulator and
+		// recorder: after every one of them every address shows as empty
+		resets := 1
+		if (c.Cfg.M*7+c.Cfg.Cycles)%8 == 2 {
+			resets = 300
+		}
 		b.Reset()
 		for a := range acc {
 			acc[a] = []cellState{{gmars.CoreEmpty, -1}}
 		}
-		if d := checkRecorder("after Reset"); d != "" {
-			return d
+		for r := 1; r <= resets; r++ {
+			sim.Reset()
+			if d := checkRecorder(fmt.Sprintf("after Reset number %d", r)); d != "" {
+				return d
+			}
 		}
 		for i, w := range c.Ws {
 			if err := sim.SpawnWarrior(i, gmars.Address(c.Offs[i])); err != nil {
